@@ -468,6 +468,13 @@ def sweep_cases(base, rng, budget):
             combos.append((kind, v))
     rng.shuffle(combos)
     out = []
+    # fault sequences: a few cases with two faults (different or same victim)
+    for _ in range(budget // 8 if combos and n_act > 1 else 0):
+        (k1, v1), (k2, v2) = rng.choice(combos), rng.choice(combos)
+        a, b = sorted((rng.randint(1, n_act), rng.randint(1, n_act)))
+        c = copy.deepcopy(base)
+        c['faults'] = [[k1, v1, a], [k2, v2, b]]
+        out.append(c)
     for kind, v in combos:
         for k in range(1, n_act + 1):
             c = copy.deepcopy(base)
@@ -487,6 +494,7 @@ def execute(ctx, case, batch):
     ctx.bump('participants=%d' % len(case['parts']))
     for kind, v, k in S.done_faults:
         ctx.bump('fault=%s@%s' % (kind, case['parts'][v]['kind']))
+    ctx.bump('faults_per_case=%d' % len(case['faults']))
     if not S.done_faults:
         ctx.bump('fault=none' if not case['faults'] else 'fault=not-reached')
     for e in S.events:
